@@ -952,6 +952,7 @@ fn spawn_async_ao_list_in_task'''),
         ('export-name-on-an-existing-variable-does-nothing-with-n', 'brush-builtins/src/export.rs', "                    if self.unexport {\n                        variable.unexport();\n                    } else {\n                        variable.export();\n                    }\n                }\n            }", "                    if !self.unexport {\n                        variable.export();\n                    }\n                }\n            }"),
     ],
     'U48': [
+        ('required-scope-means-any-scope-of-that-type-again', 'brush-core/src/interp.rs', "            || (Some(existing_value_scope) == required_scope && in_innermost_scope)", "            || Some(existing_value_scope) == required_scope"),
         ('appending-temporary-assignment-forgets-the-old-value', 'brush-core/src/interp.rs', "            let mut new_var = existing_value.clone();\n            new_var.assign(new_value, true)?;", "            let mut new_var = ShellVariable::new(ShellValue::String(String::new()));\n            new_var.assign(new_value, true)?;"),
         ('temporary-assignment-shadows-a-readonly-variable-again', 'brush-core/src/interp.rs', "        if existing_value.is_readonly() {\n            return Err(error::ErrorKind::ReadonlyVariable.into());\n        }\n", ""),
         ('assignment-drops-the-export-attribute', 'brush-core/src/interp.rs', "            if export {\n                existing_value.export();\n            }\n\n            // That's it!", "            if export {\n                existing_value.export();\n            } else {\n                existing_value.unexport();\n            }\n\n            // That's it!"),
